@@ -1,5 +1,6 @@
 import OpusModel.Basic
 import OpusModel.SilkParams.Fix
+import OpusModel.Gen.VadConsts
 /-
   OpusModel.SilkVad — the SILK voice activity detector (property C20: the detector in charge of DTX
   when the tonality analysis does not run).  All fixed-point integer code, identical in the float build.
@@ -53,15 +54,17 @@ structure VadState where
 def int32Max : Int := 2147483647
 
 /-- `VAD_NOISE_LEVELS_BIAS`, `VAD_NOISE_LEVEL_SMOOTH_COEF_Q16`, `VAD_SNR_FACTOR_Q16`,
-    `VAD_NEGATIVE_OFFSET_Q5`, `VAD_SNR_SMOOTH_COEF_Q18` (silk/define.h:190-198; re-extracted into
-    OpusModel/Gen/VadConsts.lean and compared in OpusProofs/SilkVad.lean). -/
-def noiseLevelsBias : Int := 50
-def noiseLevelSmoothCoefQ16 : Int := 1024
-def snrFactorQ16 : Int := 45000
-def negativeOffsetQ5 : Int := 128
-def snrSmoothCoefQ18 : Int := 4096
-/-- `tiltWeights` (silk/VAD.c:79, function-file static). -/
-def tiltWeights : Q4 := ⟨30000, 6000, -12000, -12000⟩
+    `VAD_NEGATIVE_OFFSET_Q5`, `VAD_SNR_SMOOTH_COEF_Q18` (silk/define.h:190-198), regenerated from /repo
+    into OpusModel/Gen/VadConsts.lean on every run. -/
+def noiseLevelsBias : Int := Gen.VadConsts.vadNoiseLevelsBias
+def noiseLevelSmoothCoefQ16 : Int := Gen.VadConsts.vadNoiseLevelSmoothCoefQ16
+def snrFactorQ16 : Int := Gen.VadConsts.vadSnrFactorQ16
+def negativeOffsetQ5 : Int := Gen.VadConsts.vadNegativeOffsetQ5
+def snrSmoothCoefQ18 : Int := Gen.VadConsts.vadSnrSmoothCoefQ18
+/-- `tiltWeights` (silk/VAD.c:79, file static; regenerated). -/
+def tiltWeights : Q4 :=
+  ⟨Gen.VadConsts.tiltWeights.getD 0 0, Gen.VadConsts.tiltWeights.getD 1 0, Gen.VadConsts.tiltWeights.getD 2 0,
+   Gen.VadConsts.tiltWeights.getD 3 0⟩
 
 /-- `silk_ADD_POS_SAT32(a, b)` (SigProc_FIX.h:499): for non-negative `a`, `b`. -/
 def addPosSat32 (a b : Int) : Int :=
@@ -79,8 +82,8 @@ def vadInit : VadState :=
 /-! ### `silk_ana_filt_bank_1` -/
 
 /-- `A_fb1_20 = 5394 << 1`, `A_fb1_21 = -24290` (ana_filt_bank_1.c:35-36). -/
-def aFb120 : Int := 10788
-def aFb121 : Int := -24290
+def aFb120 : Int := Gen.VadConsts.aFb120
+def aFb121 : Int := Gen.VadConsts.aFb121
 
 /-- One iteration of the loop of `silk_ana_filt_bank_1` (two input samples → one low, one high). -/
 def anaStep (s : Int × Int) (x0 x1 : Int) : (Int × Int) × Int × Int :=
@@ -107,9 +110,9 @@ def anaFilt : Int × Int → List Int → (Int × Int) × List Int × List Int
 /-! ### small functions -/
 
 /-- `silk_sigm_Q15` (silk/sigm_Q15.c:49-76). -/
-def sigmLutSlopeQ10 : List Int := [237, 153, 73, 30, 12, 7]
-def sigmLutPosQ15 : List Int := [16384, 23955, 28861, 31213, 32178, 32548]
-def sigmLutNegQ15 : List Int := [16384, 8812, 3906, 1554, 589, 219]
+def sigmLutSlopeQ10 : List Int := Gen.VadConsts.sigmLutSlopeQ10
+def sigmLutPosQ15 : List Int := Gen.VadConsts.sigmLutPosQ15
+def sigmLutNegQ15 : List Int := Gen.VadConsts.sigmLutNegQ15
 
 def sigmQ15 (inQ5 : Int) : Int :=
   if inQ5 < 0 then
@@ -220,6 +223,63 @@ structure VadOut where
   quality : Q4
   deriving DecidableEq, Repr
 
+/-- Filter bank, differentiator and band energies (silk/VAD.c:113-199): the state with the new filter
+    memories, `HPstate` and `XnrgSubfr`, and the four band energies `Xnrg`. -/
+def bands (st : VadState) (frameLength : Nat) (pIn : List Int) : VadState × Q4 :=
+  let l1 := frameLength / 2
+  let l2 := frameLength / 4
+  let l3 := frameLength / 8
+  -- filter and decimate (:134-144)
+  let f0 := anaFilt st.ana0 (pIn.take frameLength)        -- 0-4 kHz | 4-8 kHz
+  let f1 := anaFilt st.ana1 (f0.2.1.take l1)              -- 0-2 kHz | 2-4 kHz
+  let f2 := anaFilt st.ana2 (f1.2.1.take l2)              -- 0-1 kHz | 1-2 kHz
+  let x0 := hpDiff st.hp (f2.2.1.take l3)
+  let hp' := hpLast st.hp (f2.2.1.take l3)
+  -- energies (:161-199)
+  let e0 := bandEnergy st.xnrgSubfr.b0 x0 l3
+  let e1 := bandEnergy st.xnrgSubfr.b1 f2.2.2 l3
+  let e2 := bandEnergy st.xnrgSubfr.b2 f1.2.2 l2
+  let e3 := bandEnergy st.xnrgSubfr.b3 f0.2.2 l1
+  ({ st with ana0 := f0.1, ana1 := f1.1, ana2 := f2.1, hp := hp', xnrgSubfr := ⟨e0.2, e1.2, e2.2, e3.2⟩ },
+   ⟨e0.1, e1.1, e2.1, e3.1⟩)
+
+/-- The speech activity before the power scaling and the tilt (silk/VAD.c:209-255):
+    `(SA_Q15, input_tilt_Q15, NrgToNoiseRatio_Q8)`. -/
+def snrStage (nl xnrg : Q4) : Int × Int × Q4 :=
+  let s0 := snrBand xnrg.b0 nl.b0 tiltWeights.b0 0
+  let s1 := snrBand xnrg.b1 nl.b1 tiltWeights.b1 s0.2.2
+  let s2 := snrBand xnrg.b2 nl.b2 tiltWeights.b2 s1.2.2
+  let s3 := snrBand xnrg.b3 nl.b3 tiltWeights.b3 s2.2.2
+  let sumSquared := Int.tdiv (s0.2.1 + s1.2.1 + s2.2.1 + s3.2.1) 4
+  let pSNR := wrap16 (3 * sqrtApprox sumSquared)
+  (sigmQ15 (smulwb snrFactorQ16 pSNR - negativeOffsetQ5), lshift32 (sigmQ15 s3.2.2 - 16384) 1, ⟨s0.1, s1.1, s2.1, s3.1⟩)
+
+/-- Power scaling (silk/VAD.c:260-279): the final `SA_Q15`. -/
+def powerScale (sa : Int) (nl xnrg : Q4) (full20ms : Bool) : Int :=
+  let sn := 1 * shrI (xnrg.b0 - nl.b0) 4 + 2 * shrI (xnrg.b1 - nl.b1) 4
+              + 3 * shrI (xnrg.b2 - nl.b2) 4 + 4 * shrI (xnrg.b3 - nl.b3) 4
+  let sn := if full20ms then shrI sn 1 else sn
+  if sn ≤ 0 then shrI sa 1
+  else if sn < 16384 then smulwb (32768 + sqrtApprox (lshift32 sn 16)) sa
+  else sa
+
+/-- The smoothing coefficient (silk/VAD.c:287-291). -/
+def smoothCoef (sa : Int) (half : Bool) : Int :=
+  let c := smulwb snrSmoothCoefQ18 (smulwb sa sa)
+  if half then shrI c 1 else c
+
+/-- Everything after the noise estimation (silk/VAD.c:209-295). -/
+def decision (st2 : VadState) (xnrg : Q4) (fsKHz frameLength : Nat) : VadOut :=
+  let r := snrStage st2.nl xnrg
+  let sa := powerScale r.1 st2.nl xnrg (frameLength = 20 * fsKHz)
+  let coef := smoothCoef sa (frameLength = 10 * fsKHz)
+  let q0 := qualityBand st2.ratioSmth.b0 r.2.2.b0 coef
+  let q1 := qualityBand st2.ratioSmth.b1 r.2.2.b1 coef
+  let q2 := qualityBand st2.ratioSmth.b2 r.2.2.b2 coef
+  let q3 := qualityBand st2.ratioSmth.b3 r.2.2.b3 coef
+  { st := { st2 with ratioSmth := ⟨q0.1, q1.1, q2.1, q3.1⟩ }, speechActivityQ8 := min (shrI sa 7) 255,
+    inputTiltQ15 := r.2.1, quality := ⟨q0.2, q1.2, q2.2, q3.2⟩ }
+
 /-- `silk_VAD_GetSA_Q8_c` (silk/VAD.c:84-298).  `frameLength` = `psEncC->frame_length` (a multiple of 8,
     at most 512 — the `celt_assert`s of :109-111 give `.abort`), `fsKHz` = `psEncC->fs_kHz`, `pIn` the
     frame (`frameLength` samples are read). -/
@@ -227,51 +287,7 @@ def getSA (st : VadState) (fsKHz frameLength : Nat) (pIn : List Int) : Res VadOu
   if frameLength > 512 ∨ frameLength % 8 ≠ 0 then .abort
   else if pIn.length < frameLength then .oob
   else
-    let l1 := frameLength / 2
-    let l2 := frameLength / 4
-    let l3 := frameLength / 8
-    -- filter and decimate (:134-144)
-    let f0 := anaFilt st.ana0 (pIn.take frameLength)        -- 0-4 kHz | 4-8 kHz
-    let f1 := anaFilt st.ana1 (f0.2.1.take l1)              -- 0-2 kHz | 2-4 kHz
-    let f2 := anaFilt st.ana2 (f1.2.1.take l2)              -- 0-1 kHz | 1-2 kHz
-    let x0 := hpDiff st.hp (f2.2.1.take l3)
-    let hp' := hpLast st.hp (f2.2.1.take l3)
-    -- energies (:161-199)
-    let e0 := bandEnergy st.xnrgSubfr.b0 x0 l3
-    let e1 := bandEnergy st.xnrgSubfr.b1 f2.2.2 l3
-    let e2 := bandEnergy st.xnrgSubfr.b2 f1.2.2 l2
-    let e3 := bandEnergy st.xnrgSubfr.b3 f0.2.2 l1
-    let xnrg : Q4 := ⟨e0.1, e1.1, e2.1, e3.1⟩
-    let st1 : VadState := { st with ana0 := f0.1, ana1 := f1.1, ana2 := f2.1, hp := hp',
-                                    xnrgSubfr := ⟨e0.2, e1.2, e2.2, e3.2⟩ }
-    -- noise estimation (:204)
-    let st2 := getNoiseLevels xnrg st1
-    -- SNR (:209-241)
-    let s0 := snrBand xnrg.b0 st2.nl.b0 tiltWeights.b0 0
-    let s1 := snrBand xnrg.b1 st2.nl.b1 tiltWeights.b1 s0.2.2
-    let s2 := snrBand xnrg.b2 st2.nl.b2 tiltWeights.b2 s1.2.2
-    let s3 := snrBand xnrg.b3 st2.nl.b3 tiltWeights.b3 s2.2.2
-    let sumSquared := Int.tdiv (s0.2.1 + s1.2.1 + s2.2.1 + s3.2.1) 4
-    let pSNR := wrap16 (3 * sqrtApprox sumSquared)
-    let sa := sigmQ15 (smulwb snrFactorQ16 pSNR - negativeOffsetQ5)
-    let tiltQ15 := lshift32 (sigmQ15 s3.2.2 - 16384) 1
-    -- power scaling (:260-279)
-    let sn := 1 * shrI (xnrg.b0 - st2.nl.b0) 4 + 2 * shrI (xnrg.b1 - st2.nl.b1) 4
-                + 3 * shrI (xnrg.b2 - st2.nl.b2) 4 + 4 * shrI (xnrg.b3 - st2.nl.b3) 4
-    let sn := if frameLength = 20 * fsKHz then shrI sn 1 else sn
-    let sa :=
-      if sn ≤ 0 then shrI sa 1
-      else if sn < 16384 then smulwb (32768 + sqrtApprox (lshift32 sn 16)) sa
-      else sa
-    let saQ8 := min (shrI sa 7) 255
-    -- smoothing (:287-295)
-    let coef := smulwb snrSmoothCoefQ18 (smulwb sa sa)
-    let coef := if frameLength = 10 * fsKHz then shrI coef 1 else coef
-    let q0 := qualityBand st2.ratioSmth.b0 s0.1 coef
-    let q1 := qualityBand st2.ratioSmth.b1 s1.1 coef
-    let q2 := qualityBand st2.ratioSmth.b2 s2.1 coef
-    let q3 := qualityBand st2.ratioSmth.b3 s3.1 coef
-    .ok { st := { st2 with ratioSmth := ⟨q0.1, q1.1, q2.1, q3.1⟩ }, speechActivityQ8 := saQ8,
-          inputTiltQ15 := tiltQ15, quality := ⟨q0.2, q1.2, q2.2, q3.2⟩ }
+    let b := bands st frameLength pIn
+    .ok (decision (getNoiseLevels b.2 b.1) b.2 fsKHz frameLength)
 
 end Opus.SilkVad
